@@ -4,6 +4,7 @@ import collections
 
 from vt.world import World
 from vt import monitors as M
+from vt import preempt
 from vt.bus import order_fingerprint
 from ref import sniffer as SN
 from ref import codec as C
@@ -76,6 +77,8 @@ def run_scenario(case, layer):
     windows = case.get('windows') or [rng.choice([1, 1, 2, 3, 5, 16, 255, rng.randint(1, 255)]) for _ in range(n)]
     bam_iv = case.get('bam_interval')
     dt_ivs = case.get('dt_intervals') or [rng.choice([None, None, None, None, 0.001, 0.005, 0.02]) for _ in range(n)]
+    rxp = case.get('rxp', random.Random(case['seed'] ^ 0x5A17).random() < 0.15)
+    rx_holds = [0]
     eps = []
     senders = []
     triggers = collections.defaultdict(list)      # listener key -> chained submissions waiting for a delivery at that listener
@@ -101,7 +104,16 @@ def run_scenario(case, layer):
             kw['minimum_tp_bam_dt_interval'] = bam_iv
         if dt_ivs[i] is not None:
             kw['minimum_tp_rts_cts_dt_interval'] = dt_ivs[i]
+        if rxp:
+            # frames are handled by a receive thread of their own, which is suspended at random source lines of its handlers while the job
+            # thread of the same stack is made to run (one-shot timer due in the middle of the hold)
+            holder = []
+            kw['rx_thread'] = True
+            kw['rx_trace'] = preempt.random_tracer(sim, case['seed'] ^ (0x77 + i), p=0.003, holds=(0.0002, 0.001, 0.003), counter=rx_holds,
+                                                   kick=lambda h, _h=holder: _h[0].ecu.add_timer(h / 2, lambda cookie: False))
         node = W.stack('N%d' % i, **kw)
+        if rxp:
+            holder.append(node)
         if rng.random() < 0.2:
             node.ecu.add_timer(rng.choice([0.003, 0.03, 0.9, 2.0]), lambda c: True)       # unrelated periodic application timer
         W.listen_ecu(node, ('ecu', i))
@@ -324,7 +336,7 @@ def run_scenario(case, layer):
     multi = sum(1 for m in msgs if m['acc'] is True and len(m['data']) > (60 if fd else 8))
     obs = dict(messages_accepted=n_acc, messages_refused=n_ref, multipacket_accepted=multi, deliveries_compared=compared,
                frames=len(W.bus.frames), eom_notifications=eom_seen[0], tables_observed=tables, sessions_reassembled=sn_ok,
-               zero_latency_cases=1 if zero else 0, chained_submissions=sum(1 for m in msgs if m.get('chain')), jobthread_max_timecalls=max([s.job_state.max_time_calls for s in W.stacks] + [0]))
+               zero_latency_cases=1 if zero else 0, rx_thread_cases=1 if rxp else 0, rx_handler_holds=rx_holds[0], eager_switches=sim.eager_switches, chained_submissions=sum(1 for m in msgs if m.get('chain')), jobthread_max_timecalls=max([s.job_state.max_time_calls for s in W.stacks] + [0]))
     sample = dict(case=dict(seed=case['seed'], stacks=n, layouts=layouts, endpoints=[(e['stack'], e['kind'], e['addr']) for e in eps], windows=windows,
                             dt_intervals=dt_ivs, zero=zero, lat=list(lat)),
                   messages=[(m['mode'], len(m['data']), 'ep%d' % m['src'], m['dst'], round(m['t'], 4) if m['t'] is not None else m.get('chain'), m['acc']) for m in msgs[:14]],
